@@ -56,6 +56,10 @@ func gmeMenu(thorough bool) []gmeOpt {
 		}
 		var l []string
 		for _, c := range strings.Split(s, ",") {
+			if strings.HasPrefix(c, "s") {
+				l = append(l, " e"+c[1:]) // an endpoint name with a leading blank: names are opaque strings
+				continue
+			}
 			l = append(l, "e"+c)
 		}
 		return l
@@ -102,6 +106,8 @@ func gmeMenu(thorough bool) []gmeOpt {
 	// a list that names an endpoint twice: the statement does not say whether it is accepted; whatever
 	// the answer, a rejection must leave routing unchanged and an acceptance must behave like the
 	// list without the repetition (no later RPC may panic or reach a closed pool)
+	// endpoint names are opaque: one that differs from another only by a blank is another endpoint
+	menu = append(menu, mk("d", "d", "s2,1"))
 	menu = append(menu,
 		inv("duplicate", mk("d", "d", "3,3")),
 		inv("duplicate", mk("d", "d", "1,2", "n", "2,2")),
